@@ -12,7 +12,7 @@ if [ -f harness/translate.py ]; then /venv/bin/python harness/translate.py; fi
 cd coq
 { echo "-Q . CPL"; echo "-arg -w -arg -notation-overridden,-deprecated-hint-without-locality,-deprecated-instance-without-locality,-ambiguous-paths"; 
   find Model Proofs Spec Properties Corr -name '*.v' 2>/dev/null | sort | grep -Ev "${SETUP_EXCLUDE_RE:-^$}"; 
-  [ -f gen/GenTables.v ] && echo gen/GenTables.v; [ -f gen/GenFuns.v ] && echo gen/GenFuns.v; [ -d GenProps ] && find GenProps -name '*.v' | sort; } > _CoqProject
+  [ -f gen/GenTables.v ] && echo gen/GenTables.v; ls gen/GenFuns*.v 2>/dev/null; [ -d GenProps ] && find GenProps -name '*.v' | sort; } > _CoqProject
 coq_makefile -f _CoqProject -o Makefile >/dev/null
 if [ "$1" = "clean" ]; then make clean >/dev/null 2>&1 || true; fi
 ulimit -s unlimited 2>/dev/null || true
